@@ -47,6 +47,18 @@ from . import tlc
 from .core import Check, MachineryError, workdir
 
 PID = "C02"
+RULE = ("TLC (MC_C02) enumerates by BFS every argument list inside the bounds of configurations V/A/R/I and "
+        "samples deeper ones with -simulate (S); each list is replayed on the probe tag and on the component tag "
+        "in k layouts of a 15-row pairwise covering array (quick k=3, thorough k=6, rotating with the case number); "
+        "random deeper lists are validated by Trace_C02.  Non-trivial = anything but a single plain positional "
+        "leaf; distinct by hash of the abstract argument list")
+ASSUMPTIONS = [
+    "the meaning of a leaf is FilterExpression(canonical text).resolve(context) of the installed Django; "
+    "of a nested-template string the text a stock Lexer/Parser render produces",
+    "all whitespace points of one kind share one value within a text (per-kind, not per-point layouts)",
+    "dict results are compared as Python dicts (order-insensitive); SafeString counts as str",
+    "top-level `...[..]` / `...{..}` is valid (docstring is contradictory; tests and changelog use it)",
+]
 PROBE_TAG = "vfprobe"
 PROBE_COMP = "vf_probe_c02"
 
@@ -263,10 +275,10 @@ def observe(path: str, text: str, slash: bool) -> Dict[str, Any]:
     return {"o": "values", "args": list(a), "kwargs": dict(kw), "flags": fl}
 
 
-def compare(obs: Dict[str, Any], outcome: str, exp: Optional[Tuple[List[Any], Dict[str, Any], set]], path: str) -> bool:
-    if obs["o"] != outcome:
+def compare(obs: Dict[str, Any], outcomes, exp: Optional[Tuple[List[Any], Dict[str, Any], set]], path: str) -> bool:
+    if obs["o"] not in outcomes:
         return False
-    if outcome != "values":
+    if obs["o"] != "values":
         return True
     a, kw, fl = exp
     return same(obs["args"], a) and same(obs["kwargs"], kw) and (path != "probe" or obs["flags"] == fl)
@@ -280,8 +292,10 @@ def show(obs: Dict[str, Any]) -> Dict[str, Any]:
     return d
 
 
-def check_case(case: Dict[str, Any], styles: List[Dict[str, Any]], sfrom: int) -> List[Dict[str, Any]]:
-    """Replay one exported case under every exported style on both paths; -> list of failures."""
+def check_case(case: Dict[str, Any], styles: List[Dict[str, Any]], sfrom: int,
+               pick: Optional[List[int]] = None) -> List[Dict[str, Any]]:
+    """Replay one exported case under the exported styles (`pick`: positions in case["texts"],
+    default all) on both paths; -> list of failures."""
     fails: List[Dict[str, Any]] = []
     outcome = "tse" if case["invalid"] else "values"
     try:
@@ -289,18 +303,23 @@ def check_case(case: Dict[str, Any], styles: List[Dict[str, Any]], sfrom: int) -
     except Exception as ex:  # stock Django cannot value a leaf: the case is outside the model
         raise MachineryError(f"stock evaluation failed for {case['args']}: {ex!r}")
     for j, syms in enumerate(case["texts"]):
+        if pick is not None and j not in pick:
+            continue
         st = styles[sfrom - 1 + j]
         text = "".join(syms)
         for path in ("probe", "comp"):
             obs = observe(path, text, st["slash"])
-            if compare(obs, outcome, exp, path):
+            if compare(obs, [outcome], exp, path):
+                continue
+            if case["lenient"][j] and obs["o"] == "tse":     # unspecified zone: refusal is admissible
+                fails.append({"zone": "ws-before-literal-spread-operand"})
                 continue
             key = None
             for dev in case.get("devs", []):
                 if dev["path"] not in ("both", path):
                     continue
-                dexp = expected_call(dev["expect"]) if dev["outcome"] == "values" else None
-                if compare(obs, dev["outcome"], dexp, path):
+                dexp = expected_call(dev["expect"]) if "values" in dev["outcomes"] else None
+                if compare(obs, dev["outcomes"], dexp, path):
                     key = dev["name"]
                     break
             fails.append({"path": path, "style": sfrom + j, "text": text, "key": key,
@@ -379,42 +398,54 @@ def read_cases(path: str):
 _W: Dict[str, Any] = {}
 
 
-def _init_worker(header):
+def _init_worker(header, k):
     _W["header"] = header
+    _W["k"] = k
     set_ctx(header["ctx"])
+
+
+def picks(idx: int, nst: int, k: Optional[int]) -> List[int]:
+    """Which of the nst exported layouts case number idx is replayed in: all, or k of them
+    rotating with the case number so that every layout is used equally often."""
+    if k is None or k >= nst:
+        return list(range(nst))
+    return [(idx * k + j) % nst for j in range(k)]
 
 
 def _work(chunk):
     out = []
     h = _W["header"]
     for idx, case in chunk:
-        out.append((idx, check_case(case, h["styles"], h["from"])))
+        out.append((idx, check_case(case, h["styles"], h["from"], picks(idx, len(case["texts"]), _W["k"]))))
     return out
 
 
-def replay_cases(chk: Check, header, cases, label: str, procs: int) -> None:
+def replay_cases(chk: Check, header, cases, label: str, procs: int, k: Optional[int] = None) -> None:
     """Replay exported cases on the real code in worker processes."""
     idx = list(enumerate(cases))
     n = max(1, min(400, len(idx) // (procs * 4) + 1))
     chunks = [idx[i:i + n] for i in range(0, len(idx), n)]
     if procs <= 1:
-        _init_worker(header)
+        _init_worker(header, k)
         results = [_work(c) for c in chunks]
     else:
         ctx = mp.get_context("fork")
-        with ctx.Pool(procs, initializer=_init_worker, initargs=(header,)) as pool:
+        with ctx.Pool(procs, initializer=_init_worker, initargs=(header, k)) as pool:
             results = pool.map(_work, chunks, chunksize=1)
     nfail = 0
     for res in results:
         for i, fails in res:
             case = cases[i]
             for f in fails:
+                if "zone" in f:
+                    chk.add("zone:" + f["zone"] + ":refused")
+                    continue
                 nfail += 1
                 chk.violation({"kind": "replay", "config": label, "args": case["args"], "invalid": case["invalid"],
                                "style": f["style"], "path": f["path"], "text": f["text"],
                                "ctx": header["ctx"], "expect": case["expect"], "devs": case.get("devs", [])},
                               {"expected": f["expected"], "observed": f["observed"]}, key=f["key"])
-    ntexts = sum(len(c["texts"]) for c in cases)
+    ntexts = sum(len(picks(i, len(c["texts"]), k)) for i, c in enumerate(cases))
     chk.add("cases_replayed", len(cases))
     chk.add("texts_replayed", ntexts)
     chk.add("real_renders", 2 * ntexts)
@@ -427,7 +458,8 @@ def nontrivial(case) -> bool:
                                                                  ("list", "dict", "filt", "tpl", "trans")))
 
 
-def spec_to_code(chk: Check, tier: str, procs: int, with_props: bool = True, sim: bool = True) -> None:
+def spec_to_code(chk: Check, tier: str, procs: int, with_props: bool = True, sim: bool = True,
+                 k: Optional[int] = None):
     w = workdir("c02mc")
     res, props = export_cases(tier, w, with_props=with_props, sim=sim, seed=chk.seed)
     for name, (r, out) in res.items():
@@ -435,9 +467,9 @@ def spec_to_code(chk: Check, tier: str, procs: int, with_props: bool = True, sim
         if name == "S":     # simulation revisits states: one line per visit, keep distinct lists
             seen, uniq = set(), []
             for c in cases:
-                k = json.dumps(c["args"], sort_keys=True)
-                if k not in seen:
-                    seen.add(k)
+                ck = json.dumps(c["args"], sort_keys=True)
+                if ck not in seen:
+                    seen.add(ck)
                     uniq.append(c)
             cases = uniq
         if not cases:
@@ -445,12 +477,13 @@ def spec_to_code(chk: Check, tier: str, procs: int, with_props: bool = True, sim
         chk.add("states", r.distinct)
         chk.add("transitions", r.generated)
         chk.cov.setdefault("cases_by_config", {})[name] = len(cases)
+        chk.cov.setdefault("tlc_wall_s", {})[name] = round(r.wall_s, 1)
         for c in cases:
             chk.count(c["args"], nontrivial(c))
         mid = cases[len(cases) // 2]
         chk.sample({"config": name, "args": mid["args"], "text": "".join(mid["texts"][min(2, len(mid["texts"]) - 1)]),
                     "expect": mid["expect"], "invalid": mid["invalid"]}, limit=8)
-        replay_cases(chk, header, cases, name, procs)
+        replay_cases(chk, header, cases, name, procs, k)
     for name, r in props.items():
         if r.violated:
             chk.violation({"kind": "spec-invariant", "config": name},
@@ -458,6 +491,7 @@ def spec_to_code(chk: Check, tier: str, procs: int, with_props: bool = True, sim
         else:
             tlc.require_ok(r, f"MC_C02 invariants {name}")
         chk.add("spec_invariant_states", r.distinct)
+        chk.cov.setdefault("tlc_wall_s", {})["props_" + name] = round(r.wall_s, 1)
     return header
 
 
@@ -792,7 +826,11 @@ def record_traces(header, seed: int, n: int, depth: int) -> List[Dict[str, Any]]
     g = Gen(rnd, header)
     strtab, tpltab, canon = header["strtab"], header["tpltab"], header["canon"]
     out = []
-    for i in range(n):
+    guard = 0
+    while len(out) < n:
+        guard += 1
+        if guard > 20 * n + 100:
+            raise MachineryError("random driver cannot produce enough evaluable argument lists")
         args = g.args(strtab, rnd.randint(0, depth))
         if rnd.random() < 0.15:
             args = g.make_invalid(args)
@@ -800,13 +838,13 @@ def record_traces(header, seed: int, n: int, depth: int) -> List[Dict[str, Any]]
         syms = text_of(args, st, strtab, tpltab)
         text = "".join(syms)
         lv = []
-        for kind, can in dict.fromkeys((k, tuple(c)) for k, c in leaves_of(args, canon, strtab, tpltab)):
-            try:
+        try:
+            for kind, can in dict.fromkeys((k, tuple(c)) for k, c in leaves_of(args, canon, strtab, tpltab)):
                 val = stock_leaf("".join(can)) if kind == "leaf" else stock_render("".join(can))
-            except Exception as ex:  # noqa: BLE001
-                raise MachineryError(f"stock Django cannot value {can!r}: {ex!r}")
-            lv.append({"kind": kind, "canon": list(can), "val": typed(val)})
-        out.append({"id": i + 1, "args": args, "style": st, "text": syms, "lv": lv,
+                lv.append({"kind": kind, "canon": list(can), "val": typed(val)})
+        except Exception:  # noqa: BLE001 - stock Django itself raises on a leaf (e.g. 7|first): no meaning, skip
+            continue
+        out.append({"id": len(out) + 1, "args": args, "style": st, "text": syms, "lv": lv,
                     "probe": obs_record(observe("probe", text, st["slash"])),
                     "comp": obs_record(observe("comp", text, st["slash"]))})
     return out
@@ -850,10 +888,10 @@ def code_to_spec(chk: Check, header, ntraces: int, depth: int, batch: int = 400)
 def _verdicts(r, n: int) -> Dict[int, Optional[List[str]]]:
     out: Dict[int, Optional[List[str]]] = {}
     for line in r.out.splitlines():
-        m = re.match(r'<<"ACCEPT", (\d+)>>', line)
+        m = re.match(r'"ACCEPT (\d+)"$', line)
         if m:
             out[int(m.group(1))] = None
-        m = re.match(r'<<"REJECT", (\d+), 0, <<"([^"]*)", "([^"]*)", "([^"]*)">>>>', line)
+        m = re.match(r'"REJECT (\d+) (\S+) (\S+) (\S+)"$', line)
         if m:
             out[int(m.group(1))] = [m.group(2), m.group(3), m.group(4)]
     if len(out) != n:
@@ -864,7 +902,7 @@ def _verdicts(r, n: int) -> Dict[int, Optional[List[str]]]:
 def run(tier: str) -> int:
     env()
     chk = Check(PID, tier, "model_checking")
-    header = spec_to_code(chk, tier, procs=8)
+    header = spec_to_code(chk, tier, procs=8, k=3 if tier == "quick" else 6)
     code_to_spec(chk, header, ntraces=600 if tier == "quick" else 6000, depth=3 if tier == "quick" else 4)
     chk.cov["exhaustive"] = True
     chk.cov["rule"] = RULE
